@@ -472,3 +472,53 @@ Proof.
     apply N.leb_le. apply Hs; lia.
   - apply IH. apply (sorted_le_tail _ _ Hs).
 Qed.
+
+(* rank just above an absent / a present position *)
+Lemma vs_rank_succ_absent l a : sorted_le l -> vs_get l a = false -> vs_rank l (a + 1) = vs_rank l a.
+Proof.
+  intros Hs Hg. pose proof (vs_rank_le_len l a) as Hle. apply vs_rank_char; [exact Hs|exact Hle| |].
+  - intros i Hi. pose proof (vs_rank_lt l a i Hs Hi). lia.
+  - intros i Hi1 Hi2. pose proof (vs_rank_ge l a i Hs Hi1 Hi2) as Hge.
+    destruct (N.eq_dec (nthd l i) a) as [Heq|Hne]; [|lia]. exfalso.
+    rewrite (vs_get_sorted l a Hs) in Hg.
+    destruct (N.ltb_spec (vs_rank l a) (lenN l)) as [Hlt|Hge']; [|lia].
+    apply N.eqb_neq in Hg. pose proof (vs_rank_ge l a (vs_rank l a) Hs ltac:(lia) Hlt).
+    pose proof (Hs (vs_rank l a) i Hi1 Hi2). lia.
+Qed.
+
+Lemma vs_get_true_iff l a : sorted_le l ->
+  (vs_get l a = true <-> vs_rank l a < lenN l /\ nthd l (vs_rank l a) = a).
+Proof.
+  intros Hs. rewrite (vs_get_sorted l a Hs). destruct (N.ltb_spec (vs_rank l a) (lenN l)) as [Hlt|Hge].
+  - rewrite N.eqb_eq. tauto.
+  - split; [discriminate|lia].
+Qed.
+
+Lemma vs_rank_mono l a b : a <= b -> vs_rank l a <= vs_rank l b.
+Proof.
+  intros Hab. induction l as [|x t IH]; cbn [vs_rank]; [lia|].
+  destruct (N.ltb_spec x a), (N.ltb_spec x b); lia.
+Qed.
+
+(* ---------------------------------------------------------------- generic index segments *)
+
+Definition gseg {A} (f : N -> A) (j k : N) : list A := map f (rangeN j (N.to_nat (k - j))).
+
+Lemma gseg_nil {A} (f : N -> A) j k : k <= j -> gseg f j k = [].
+Proof. intros H. unfold gseg. replace (N.to_nat (k - j)) with 0%nat by lia. reflexivity. Qed.
+Lemma gseg_cons {A} (f : N -> A) j k : j < k -> gseg f j k = f j :: gseg f (j + 1) k.
+Proof. intros H. unfold gseg. replace (N.to_nat (k - j)) with (S (N.to_nat (k - (j + 1)))) by lia. reflexivity. Qed.
+Lemma gseg_snoc {A} (f : N -> A) j k : j < k -> gseg f j k = gseg f j (k - 1) ++ [f (k - 1)].
+Proof.
+  intros H. unfold gseg. replace (N.to_nat (k - j)) with (S (N.to_nat (k - 1 - j))) by lia.
+  rewrite rangeN_snoc, map_app. cbn [map]. replace (j + N.of_nat (N.to_nat (k - 1 - j))) with (k - 1) by lia. reflexivity.
+Qed.
+
+Lemma rangeN_seq s d : rangeN (N.of_nat s) d = map N.of_nat (seq s d).
+Proof.
+  revert s. induction d as [|d IH]; intros s; [reflexivity|].
+  cbn [rangeN seq map]. f_equal. replace (N.of_nat s + 1) with (N.of_nat (S s)) by lia. apply IH.
+Qed.
+
+Lemma vs_bits_gseg l n : vs_bits l n = gseg (vs_get l) 0 n.
+Proof. unfold vs_bits, gseg, N_range. replace (n - 0) with n by lia. rewrite <- (rangeN_seq 0). reflexivity. Qed.
